@@ -1537,8 +1537,9 @@ def check_c05(model, rep, tier):
     r_legacy_map(model, rep)
     r_option_lookup(model, rep)
     r_doc_sections(model, rep, sorted(DOC_SECTIONS))
-    from .legacy_fp import r_legacy_facts, r_fix_path_conversion
+    from .legacy_fp import r_legacy_facts, r_fix_path_conversion, r_legacy_values
     r_legacy_facts(model, rep)
+    r_legacy_values(model, rep)
     r_fix_path_conversion(model, rep)
     # the 0.3 rpm manifest reader reads the compose section like the current one
     f03 = model.own_method("rpms.Rpms", "deserialize_0_3")
